@@ -206,6 +206,7 @@ int main(int argc, char** argv) {
       } else if (op == "normalize") { withG(m, dst, [&](const auto& X) { res = X; }); do_normalize(res); }
       else if (op == "setIdentity") { res.setIdentity(); }
       else if (op == "setRandom") { res.setRandom(); }
+      else if (op == "setcoeff") { }
       else if (op == "tsetZero") { tres.setZero(); isT = true; }
       else if (op == "tsetRandom") { tres.setRandom(); isT = true; }
       else { std::fprintf(stderr, "unknown op %s\n", op.c_str()); std::exit(3); }
@@ -241,6 +242,15 @@ int main(int argc, char** argv) {
         else if (op == "normalize") { twin = res; have_twin = true; do_normalize(D); res = D; }
         else if (op == "setIdentity") { twin = res; have_twin = true; D.setIdentity(); res = D; }
         else if (op == "setRandom") { D.setRandom(); res = D; }
+        else if (op == "setcoeff") {
+          // a write through the coefficient accessor of the destination's own storage kind: one linear coefficient gets a
+          // new value; groups that consist of rotation coefficients only get all of them negated (same rotation, still valid)
+          int lin = -1; for (int i = 0; i < REP; ++i) { bool rot = (Info<G>::rot == COMPLEX && i >= Info<G>::coff && i < Info<G>::coff + 2) || (Info<G>::rot == QUAT && i >= Info<G>::coff && i < Info<G>::coff + 4); if (!rot) { lin = i; break; } }
+          if (lin >= 0 && Info<G>::rot != NONE) D.coeffs()(lin) = (S)(0.125 * (double)(step % 17) - 1.0);
+          else if (Info<G>::rot == NONE) D.coeffs()(0) = (S)(0.125 * (double)(step % 17) - 1.0);
+          else D.coeffs() = -D.coeffs();
+          res = D;
+        }
         else if (op == "moveassign") {
           // D = std::move(source), the source being an object of its own storage kind (a fresh view over the same slot
           // for views, a copy for owning / const registers): exercises the move-assignment operators of every kind pair
